@@ -205,6 +205,14 @@ def test_b64():
     return n
 
 
+def test_utf8():
+    n = 0
+    for cp in list(range(0, 0x900)) + [0xD7FF, 0xE000, 0xFFFF, 0x10000, 0x10FFFF, 99999]:
+        expect(bytes(M.utf8_pts([cp])) == chr(cp).encode(), f"utf8 {cp}")
+        n += 1
+    return n
+
+
 def test_xor():
     import z3
 
@@ -354,6 +362,7 @@ def run(full=False, quiet=False):
         ("int", test_int),
         ("utf16", test_utf16),
         ("b64", test_b64),
+        ("utf8", test_utf8),
         ("xor", test_xor),
         ("latin1_case", test_latin1_case),
         ("matcher", lambda: test_matcher(full)),
